@@ -11,6 +11,8 @@ package vs
 
 import (
 	"fmt"
+	"sync/atomic"
+	"time"
 	"runtime/debug"
 	"sort"
 	"strings"
@@ -734,8 +736,18 @@ type Config struct {
 	Sites       bool // capture source locations of accesses (slow; used when re-running a failing schedule)
 }
 
+// execStart is the wall-clock instant (unix nanoseconds) at which the execution in progress began, 0 between
+// executions: lets the harness notice an execution that never ends because the code under test spins without
+// reaching a synchronisation operation (the step horizon only counts scheduling points).
+var execStart atomic.Int64
+
+// ExecRunningSince returns when the execution in progress started (zero time if none).
+func ExecRunningSince() int64 { return execStart.Load() }
+
 // RunOnce runs body as thread 0 under the scheduler, following prefix then default choices.
 func RunOnce(cfg Config, prefix []int, body func()) *Exec {
+	execStart.Store(time.Now().UnixNano())
+	defer execStart.Store(0)
 	s := &sched{prefix: prefix, maxSteps: cfg.MaxSteps, done: make(chan struct{}), ex: &Exec{StateHashes: map[uint64]struct{}{}},
 		shadow: map[uintptr]*shadowCell{}, atoms: map[uintptr]*VC{}, trackStates: cfg.TrackStates, logOn: cfg.Log, sites: cfg.Sites}
 	if s.maxSteps == 0 {
